@@ -357,6 +357,17 @@ Section Model.
   Definition bil (x : list T) (M : mat) (y : list T) : T :=
     sumT (map (fun xr => mul O (fst xr) (dot (snd xr) y)) (combine x M)).
   Definition quad (M : mat) (x : list T) : T := bil x M x.
+  (* AbstractInversion.regularization_term:  s_r^T (H_r s_r)  (np.matmul twice) with  s_r = reconstruction_reduced =
+     numpy.delete(reconstruction, no_regularization_index_list),  H_r = regularization_matrix_reduced *)
+  Definition reg_term (objs : list (nat * option mat)) (x : list T) : T :=
+    quad (inversion_matrix_reduced objs) (delete_idx x (no_reg_indexes 0 objs)).
+  (* its specification: the sum over the REGULARIZED objects, in list order, of the quadratic form of the object's own matrix on
+     the object's slice of the reconstruction *)
+  Fixpoint term_blocks (objs : list (nat * option mat)) (x : list T) : T :=
+    match objs with
+    | [] => zero
+    | (p, r) :: t => add O (match r with Some H => quad H (firstn p x) | None => zero end) (term_blocks t (skipn p x))
+    end.
   Definition unit (n a : nat) : list T := map (fun i => if Nat.eqb i a then one else zero) (seq 0 n).
   Definition vadd (x y : list T) : list T := map (fun p => add O (fst p) (snd p)) (combine x y).
   (* entry (a, b) of the block-diagonal assembly: locate the blocks of a and b *)
@@ -665,7 +676,7 @@ Definition agree (k : case) : bool :=
       let Hr := @inversion_matrix_reduced QOps mo in
       let xr := delete_idx x (@no_reg_indexes QOps 0 mo) in
       Nat.eqb (length sz) (length blocks) && Nat.eqb (length x) (fold_left Nat.add (map fst sz) 0%nat)
-      && close_term (abs_quad Hr xr) (@quad QOps Hr xr) out
+      && close_term (abs_quad Hr xr) (@reg_term QOps mo x) out
   | KDelNb n simplices indptr indices out outsz =>
       let m := del_neighbors n indptr indices in
       list_eqb zl_eqb (fst m) out && list_eqb Nat.eqb (snd m) outsz
@@ -738,7 +749,7 @@ Definition spec_ok (k : case) : bool :=
       && forallb (fun sb => square (fst (fst sb)) (snd sb) && (snd (fst sb) || all_zero (snd sb))) (combine sz blocks)
   | KTerm sz blocks x out =>
       let r := term_spec (combine sz blocks) x in
-      Nat.eqb (length sz) (length blocks) && close_term (snd r) (fst r) out
+      Nat.eqb (length sz) (length blocks) && close_term (snd r) (@term_blocks QOps (assembly_objs sz blocks) x) out
   | KDelNb n simplices indptr indices out outsz =>
       (* given scipy's contract: one row per vertex, in range, symmetric, and exactly the edges of the triangulation *)
       if vnv_ok n simplices indptr indices then
